@@ -92,7 +92,7 @@ def model_cases(tier, seed):
     ctxs = ['{x}', "{x} 'b'", "m:{x}", "[{x}]", "{{{x}}}", "({x} | 'b')", "','.{{{x}}}+"]
     for kname, kfrag in KINDS:
         for i, c in enumerate(ctxs):
-            if tier != 'thorough' and i not in (0, (hash(kname) % (len(ctxs) - 1)) + 1):
+            if tier != 'thorough' and i not in (0, (sum(map(ord, kname)) % (len(ctxs) - 1)) + 1):  # deterministic choice
                 continue
             cases.append(dict(group='structure', kind=f'{kname}@{i}', text=f"{AUX}start = {c.format(x=kfrag)} $ ;\n", s=None))
     for label, path in (('calc', '/repo/grammar/calc.ebnf'), ('tatsu', '/repo/tatsu/_tatsu.ebnf'), ('antlr', '/repo/tatsu/g2e/antlr.tatsu')):
